@@ -14,8 +14,10 @@ import (
 	"errors"
 	"fmt"
 	"path/filepath"
+	"runtime"
 	"sort"
 	"strings"
+	"sync"
 	"testing"
 
 	"github.com/rhysd/actionlint/verifshim/vexec"
@@ -512,4 +514,53 @@ func c20SanitizeCheck(r *vReport, s string) {
 		r.Violation("sanitize-length", fmt.Sprintf("sanitizeExpressionsInScript(%q) changes the length (%d -> %d), reported offsets become invalid", s, len(s), len(got)), map[string]any{"script": s})
 	}
 	r.Class(fmt.Sprintf("sanitize:placeholders=%d", strings.Count(want, "_")/5), strings.Contains(want, "_"))
+}
+
+// TestVerifC20Race is the free-running -race pass over the scenario bodies (real goroutines and
+// sync primitives, scripted tools with default outcomes and a failing one); sampling, supporting
+// evidence only.
+func TestVerifC20Race(t *testing.T) {
+	var mu sync.Mutex
+	n := 0
+	vexec.LookPathFn = func(file string) (string, error) { return "/fake/" + file, nil }
+	vexec.Handler = func(name string, args []string) vexec.Outcome {
+		mu.Lock()
+		n++
+		k := n
+		mu.Unlock()
+		menu := c20Menus[filepath.Base(name)]
+		return menu[k%3].out // 1 issue, clean, 2 issues in turn
+	}
+	vexec.Finished = nil
+	defer c20Uninstall()
+	reps := vEnvInt("VERIF_RACE_REPS", 6)
+	runs := 0
+	for _, procs := range []int{2, 4, 16} {
+		old := runtime.GOMAXPROCS(procs)
+		for rep := 0; rep < reps; rep++ {
+			for _, sc := range c20Scenarios() {
+				texts, _ := sc.render()
+				dir := vTempDir(t, "c20race-")
+				files := map[string]string{".git/HEAD": "ref: refs/heads/main\n"}
+				var paths []string
+				for i, tx := range texts {
+					p := fmt.Sprintf(".github/workflows/w%d.yml", i)
+					files[p] = tx
+					paths = append(paths, filepath.Join(dir, p))
+				}
+				vWriteFiles(t, dir, files)
+				var out bytes.Buffer
+				l, err := NewLinter(&out, &LinterOptions{Shellcheck: "shellcheck", Pyflakes: "pyflakes", WorkingDir: dir})
+				if err != nil {
+					t.Fatal(err)
+				}
+				if _, err := l.LintFiles(paths, nil); err != nil {
+					t.Fatal(err)
+				}
+				runs++
+			}
+		}
+		runtime.GOMAXPROCS(old)
+	}
+	fmt.Printf("VERIF-RACE-RUNS %d\n", runs)
 }
